@@ -257,7 +257,7 @@ def cross_check_extraction(seed=1):
     """The extracted OCaml code + the hand-written driver against the SAME definitions evaluated inside Coq
     (vm_compute) on a sample of oracle-free commands: canonical names, pairwise key comparison on bit patterns,
     the suspicious-range rule, single-byte languages, the declaration matcher, the UTF-8 and single-byte
-    decoders, and the mess detector with a constant flag oracle.  Returns the number of cases compared."""
+    decoders, the UTF-16 helper, the Unicode encoders, str::chars and the codecs by name.  Returns the number of cases compared."""
     import random, subprocess
     rnd = random.Random(seed)
     tj = json.load(open(os.path.join(BUILD, "tables.json")))
@@ -293,6 +293,27 @@ def cross_check_extraction(seed=1):
         for mode in ["STRICT", "CHUNK", "TEST"]:
             cmds.append("U8 %s %s" % (mode, hx(b)))
             exprs.append(("helper utf8_decoder [239; 191; 189]%%N %s Strict %s %s true" % (_coq_bytes(b), "true" if mode == "TEST" else "false", "true" if mode == "CHUNK" else "false"), "u8"))
+    # 7. UTF-16 helper, encoders, str::chars, codecs by name (Model/Utf.v, Codecs.v)
+    for b in [b"\xff\xfeA\x00=\xd8\x00\xde", b"A\x00\x00\xd8A\x00", b"A\x00\x00\xdcA", b"\x00\xd8", b"", b"\xfe\xff\x00A\xd8=\xde\x00\x00"]:
+        for bo in ["LE", "BE"]:
+            for mode in ["STRICT", "CHUNK", "REPLACE", "IGNORE"]:
+                cmds.append("U16 %s %s %s" % (bo, mode, hx(b)))
+                trap = {"REPLACE": "(Replace [])", "IGNORE": "Ignore"}.get(mode, "Strict")
+                exprs.append(("utf16_helper %s %s %s false %s" % ("true" if bo == "BE" else "false", _coq_bytes(b), trap, "true" if mode == "CHUNK" else "false"), "u16"))
+    for t in [[65, 233, 0x4f60, 0x1f600, 0xfeff], [], [0x7ff, 0x800, 0xffff, 0x10000, 0x10ffff, 0xd7ff, 0xe000]]:
+        cps = ",".join(str(c) for c in t) if t else "-"
+        lst = "[%s]%%N" % "; ".join(str(c) for c in t)
+        for form, fn in [("8", "utf8_encode"), ("16LE", "utf16_encode false"), ("16BE", "utf16_encode true")]:
+            cmds.append("UENC %s %s" % (form, cps))
+            exprs.append(("%s %s" % (fn, lst), "bytes"))
+        u8 = "".join(chr(c) for c in t).encode("utf-8")
+        cmds.append("U8CHARS " + hx(u8))
+        exprs.append(("utf8_chars %s" % _coq_bytes(u8), "cps"))
+    for e, b in [("windows-1251", b"\xcf\xf0\xe8\xe2\xe5\xf2"), ("iso-8859-7", b"\xd7\xe1\xdf\xf1\xe5\xae"), ("utf-8", b"h\xc3\xa9"), ("utf-16be", b"\x00A\x00"),
+                 ("windows-1252", b"\x81"), ("koi8-r", b"abc\xc1")]:
+        for mode in ["STRICT", "CHUNK"]:
+            cmds.append("CODEC %s %s %s" % (hx(e.encode()), mode, hx(b)))
+            exprs.append(("match modelled_codec %s with Some k => %s k %s | None => None end" % (_coq_str(e), "codec_chunk" if mode == "CHUNK" else "codec_strict", _coq_bytes(b)), "optcps"))
     p = subprocess.run([DRIVER], input="\n".join(cmds) + "\nQUIT\n", capture_output=True, text=True, timeout=300)
     outs = [l for l in p.stdout.splitlines() if l.startswith("R ")]
     if p.returncode != 0 or len(outs) != len(cmds):
@@ -321,12 +342,30 @@ def cross_check_extraction(seed=1):
                 checks.append("match %s with HErr _ => true | _ => false end" % expr)
             else:
                 checks.append("match %s with HFuel => true | _ => false end" % expr)
+        elif kind == "u16":
+            if r.startswith("OK"):
+                body = r[2:].strip()
+                checks.append("match %s with HOk o => list_eqb N.eqb o [%s]%%N | _ => false end" % (expr, "; ".join(body.split(",")) if body else ""))
+            elif r.startswith("ERR"):
+                checks.append("match %s with HErr _ => true | _ => false end" % expr)
+            else:
+                checks.append("match %s with HFuel => true | _ => false end" % expr)
+        elif kind == "bytes":
+            checks.append("list_eqb N.eqb (%s) %s" % (expr, _coq_bytes(bytes.fromhex(r.strip()) if r.strip() not in ("", "-") else b"")))
+        elif kind == "cps":
+            checks.append("list_eqb N.eqb (%s) [%s]%%N" % (expr, "; ".join(r.strip().split(",")) if r.strip() else ""))
+        elif kind == "optcps":
+            if r.startswith("OK"):
+                body = r[2:].strip()
+                checks.append("match %s with Some o => list_eqb N.eqb o [%s]%%N | None => false end" % (expr, "; ".join(body.split(",")) if body else ""))
+            else:
+                checks.append("match %s with Some _ => false | None => true end" % expr)
     d = os.path.join(BUILD, "assum")
     os.makedirs(d, exist_ok=True)
     f = os.path.join(d, "cases.v")
     with open(f, "w") as fh:
         fh.write("From Coq Require Import List NArith ZArith String Bool.\nFrom Gen Require Import Tables.\n"
-                 "From Model Require Import Base Names Flt F32 Matches Declared Decode Md SbLangs.\nImport ListNotations.\nOpen Scope N_scope.\n")
+                 "From Model Require Import Base Names Flt F32 Matches Declared Decode Md SbLangs Utf Codecs.\nImport ListNotations.\nOpen Scope N_scope.\n")
         for i, c in enumerate(checks):
             fh.write("Definition case_%d : bool := %s.\n" % (i, c))
         fh.write("Definition failing : list nat := filter (fun i => negb (nth i [%s] false)) (seq 0 %d).\n" % ("; ".join("case_%d" % i for i in range(len(checks))), len(checks)))
